@@ -177,7 +177,17 @@ fn base_case(prop: &str, seed: u64, run: u64, opts: &Options, mode: Mode, files:
         path_form: PathForm::Explicit,
         path_args: vec![],
         list_poison: None,
+        bogus_paths: vec![],
         list_via_pipe: false,
+    }
+}
+
+/// A path argument that cannot be expanded or opened.
+fn gen_bogus_path(rng: &mut Rng) -> String {
+    match rng.below(3) {
+        0 => "nosuch/[*.pas".to_string(),
+        1 => "nosuchdir/".to_string(),
+        _ => "nosuch/***/x.pas".to_string(),
     }
 }
 
@@ -212,6 +222,7 @@ fn path_args_for(rng: &mut Rng, form: PathForm, paths: &[String]) -> Vec<String>
     match form {
         PathForm::Explicit => vec![],
         PathForm::Directory => {
+            let slash = |rng: &mut Rng, d: String| if rng.chance(1, 4) { format!("{d}/") } else { d };
             if rng.chance(1, 2) {
                 // the common root, walked recursively
                 let mut tops: Vec<String> = dirs.iter().map(top).collect();
@@ -222,9 +233,9 @@ fn path_args_for(rng: &mut Rng, form: PathForm, paths: &[String]) -> Vec<String>
                         uniq.push(t);
                     }
                 }
-                uniq
+                uniq.into_iter().map(|d| slash(rng, d)).collect()
             } else {
-                dirs
+                dirs.into_iter().map(|d| slash(rng, d)).collect()
             }
         }
         PathForm::Glob => {
@@ -556,6 +567,9 @@ pub fn generate_c16(seed: u64, run: u64, corpus: &Corpus, tier: Tier, stats: &mu
             }
             if rng.chance(1, 10) {
                 c.extra_args = gen_log_level_args(&mut rng);
+            }
+            if rng.chance(1, 10) {
+                c.bogus_paths.push(gen_bogus_path(&mut rng));
             }
             *stats.by_mode.entry(format!("batch_path_form:{}", form.name())).or_insert(0) += 1;
             cases.push(c);
@@ -1199,6 +1213,9 @@ persistent: false,
     case.policy = gen_policy(&mut rng);
     if rng.chance(1, 5) {
         case.knobs.avx2 = false;
+    }
+    if rng.chance(1, 12) {
+        case.bogus_paths.push(gen_bogus_path(&mut rng));
     }
     if rng.chance(1, 30) {
         case.extra_args = vec!["--cursor=0,5".into()];
